@@ -24,7 +24,10 @@ TRUSTED = ["CPython thread scheduling, the GIL switch interval, OS stdin/tty sem
            "the scheduler stand-ins (fake threading/time/input module attributes) deliver events only at main-loop steps",
            "translator tie of the session loop: harness/translate_session.py (ast -> Gallina, fail closed; accepted subset and what it does not model in its docstring) and the meaning coq/theories/SessionRt.v gives to `while`, break, try/except OSError, `if limit:` and `x is None`; every collaborator of CrackingSession.run / _save_session (queue, grammar object with quit flag and OMEN counters, save configuration and file, keyboard thread) is an operation on an abstract world: the translated text equals SessionModel.m_run for every world (C12_source_run_is_model), and the property theorems instantiate the world with the collaborators of Session.v (SessionModel.sworld) or constrain it by a contract (quiet_world)"]
 ASSUMES = ["atomic steps of the main loop: one per pop+quit-check, one per emitted guess",
-           "a 'q' line is two events (flag set, thread ended) that may be separated by main-loop steps"]
+           "a 'q' line is two events (flag set, thread ended) that may be separated by main-loop steps",
+           "a resumed session: one atomic step per guess of the restored Markov level (written before the first pop, the flag read "
+           "after each), then as a new session; the model of the resumed schedules is SessionModel.w_run with load_session = true "
+           "(SessionResumedCorr.check_resumed), no property theorem is stated about it beyond the translator tie"]
 
 EV = {"status": "EvStatus", "help": "EvHelp", "q": "EvQuitFlag", "die": "EvThreadEnds",
       "eof": "EvThreadEnds", "err": "EvThreadEnds", "stderr_broken": "EvThreadEnds"}
@@ -103,7 +106,9 @@ def extreme_ruleset(rng, kind):
     return rs
 
 
-def plans_for(T, rng, tier, positions=None):
+def plans_for(T, rng, tier, positions=None, head=0):
+    """positions: the steps at which single events are placed (None: every step of the run); head: the first [head] steps are
+    the remainder of a restored Markov level (thorough: half of the random pairs start there)"""
     plans = []
     for t in (range(T) if positions is None else positions):
         for k in ("status", "help", "eof", "err", "stderr_broken"):
@@ -113,8 +118,11 @@ def plans_for(T, rng, tier, positions=None):
             plans.append({t: ["q"], t + d: ["die"]})
         plans.append({t: ["status", "status", "q", "die"]})
     if tier == "thorough":
-        for _ in range(4 * T):
+        for _ in range(4 * (T if positions is None else len(positions))):
             a, b = sorted(rng.sample(range(T + 2), 2))
+            if head and rng.random() < 0.5:
+                a = rng.randrange(head)
+                b = rng.randrange(a + 1, T + 2)
             plans.append({a: [rng.choice(["status", "help", "eof", "err"])], b: ["q", "die"]})
             plans.append({a: ["q"], b: ["die"]})
     return plans
@@ -178,15 +186,14 @@ def observe(g, plan, sc, ref, start=None):
         vio.append({"sig": "C12:stdout-noise", "what": "session wrote %r to stdout" % r["stray_stdout"][:80], "plan": replay_plan})
     # the keyboard thread must survive every status / help request: once it is gone (keypress() swallows whatever the report
     # raised and returns) no later 'q' can reach the session, so when the stream stops depends on an earlier status request
-    for step, ev in r["thread_died"][:1]:
-        cur = r["pops"][-1]["prob"] if r["pops"] else None
+    for step, ev, tail, item in r["thread_died"][:1]:
         vio.append({"sig": "C12:thread-died:" + ev, "what": "the keyboard thread ended while handling the %s request delivered at step %d "
-                    "(%s session, current pre-terminal probability %r, stderr ends with %r): every later quit request of this run is lost"
-                    % (ev, step, "resumed" if resumed else "new", cur, r["stderr"][-160:]), "plan": replay_plan})
-    for step in r["lost_quits"][:1]:
-        vio.append({"sig": "C12:quit-lost", "what": "'q' typed at step %d to a listening keyboard thread (%s session): the thread handled the line "
-                    "but the quit flag was not set (stderr ends with %r)" % (step, "resumed" if resumed else "new", r["stderr"][-160:]),
-                    "plan": replay_plan})
+                    "of a %s session (status item %s; its answer ends with %r): every later quit request of this run is lost"
+                    % (ev, step, "resumed" if resumed else "new", item, tail), "plan": replay_plan})
+    for step, ev, tail, item in r["lost_quits"][:1]:
+        vio.append({"sig": "C12:quit-lost", "what": "'q' typed at step %d to a listening keyboard thread (%s session, status item %s): the thread "
+                    "handled the line but the quit flag was not set (its answer ends with %r)"
+                    % (step, "resumed" if resumed else "new", item, tail), "plan": replay_plan})
     tq = live_quit_step(plan)
     if tq is not None and not r["lost_quits"]:
         n_exp, sv_exp = expected_stop(ref, tq)
@@ -486,8 +493,8 @@ def cuts_of(ref):
 def resumed_families(ctx, rng, g, rs, sc, ref, st, shards, tag, n_markov, n_pop, chain, maxT):
     """schedules on sessions RESUMED from a save that an earlier run of the same session left: quit inside a Markov level
     (the resumed run first writes the remainder of that level, from a status item that CrackingSession.run builds by hand)
-    or at a pop; events at every atomic step of the remainder and at / after the first pop (quick: all of the remainder up to
-    6 steps, the first pop, 3 later steps; thorough: every step).  chain: also resume a session that was itself resumed and
+    or at a pop; events at every atomic step of the remainder and at / after the first pop (quick: the remainder up to
+    6 steps, the first pop, 3 later steps; thorough: the whole remainder, the first pop, 6 later steps, random pairs).  chain: also resume a session that was itself resumed and
     quit again inside the remainder."""
     mk, po = cuts_of(ref)
     rng.shuffle(mk)
@@ -521,12 +528,12 @@ def resumed_families(ctx, rng, g, rs, sc, ref, st, shards, tag, n_markov, n_pop,
         dist["resumed_sessions"] = dist.get("resumed_sessions", 0) + 1
         dist["resumed_in_markov_level"] = dist.get("resumed_in_markov_level", 0) + (ref2["head"] > 0)
         h = ref2["head"]
+        later = list(range(h + 1, T2))
         if ctx.tier == "thorough":
-            positions = list(range(T2))
+            positions = sorted(set(list(range(h)) + ([h] if h < T2 else []) + rng.sample(later, min(6, len(later)))))
         else:
-            later = list(range(h + 1, T2))
             positions = sorted(set(list(range(min(h, 6))) + ([h] if h < T2 else []) + rng.sample(later, min(3, len(later)))))
-        obs = explore(g, rs, d, ref2, plans_for(T2, rng, ctx.tier, positions), st, start2, hist2, fam)
+        obs = explore(g, rs, d, ref2, plans_for(T2, rng, ctx.tier, positions, h), st, start2, hist2, fam)
         shards.append(("%s_x%02d" % (tag, k), shard_resumed(ref2, info, obs)))
         if chain and depth == 0 and h >= 2:
             # quit again after the first guess of the remainder, resume that
@@ -574,44 +581,62 @@ def run(ctx):
         shards.append(("r%03d" % dist["rulesets"], shard_new(ref, obs)))
         # the same session quit and RESUMED: events while the rest of the restored Markov level is written, and after it
         resumed_families(ctx, fork(ctx.rng), g, rs, sc, ref, st, shards, "r%03d" % dist["rulesets"],
-                         n_markov=ctx.scale(2, 6), n_pop=ctx.scale(1, 2), chain=ctx.scale(1 if dist["rulesets"] <= 2 else 0, 1), maxT=maxT)
+                         n_markov=ctx.scale(2, 3), n_pop=1, chain=ctx.scale(1 if dist["rulesets"] <= 2 else 0, dist["rulesets"] % 2), maxT=maxT)
     # rulesets with probabilities at the edges of the float range (the status report shows the current pre-terminal's
     # probability; generation multiplies them): the same schedules, the same oracle
     xrng = fork(ctx.rng)
-    nx = ctx.scale(len(EXTREME_KINDS), 5 * len(EXTREME_KINDS))
+    nx = ctx.scale(len(EXTREME_KINDS), 3 * len(EXTREME_KINDS))
     off = xrng.randrange(len(EXTREME_KINDS))
-    xt, xn = 0, 0
-    while xn < nx and xt < nx * 40:
-        kind = EXTREME_KINDS[(off + xn) % len(EXTREME_KINDS)]
-        xt += 1
-        rs = extreme_ruleset(xrng, kind)
+    xn = 0
+    for xi in range(nx):
+        kind = EXTREME_KINDS[(off + xi) % len(EXTREME_KINDS)]
+        for attempt in range(40):       # a kind that cannot be drawn does not hold up the others
+            rs = extreme_ruleset(xrng, kind)
+            try:
+                g = impl_next.load_grammar(rs, sc)
+            except Exception:
+                dist["extreme_not_loadable"] = dist.get("extreme_not_loadable", 0) + 1
+                continue
+            items, _, capped, _ = impl_next.full_stream(g, cap=30, check_heap=False)
+            if capped or len(items) < 2:
+                continue
+            ref = reference(g, sc)
+            T = ref["steps"]
+            classes = [prob_class(po["prob"]) for po in ref["pops"]]
+            want = {"sub-base": "subnormal", "sub-term": "subnormal", "sub-omen": "subnormal", "sub-all": "subnormal", "tiny": "tiny",
+                    "zero": "zero", "one": "one"}.get(kind)
+            if T > ctx.scale(30, 40) or T < 4 or not ref["split_ok"]:
+                continue
+            if (want and want not in classes) or (kind == "under-later" and not ("subnormal" in classes and classes[0] in ("tiny", "ordinary"))):
+                continue
+            xn += 1
+            dist["extreme_rulesets"] = dist.get("extreme_rulesets", 0) + 1
+            dist["extreme:" + kind] = dist.get("extreme:" + kind, 0) + 1
+            for c in classes:
+                dist["pre-terminals:" + c] = dist.get("pre-terminals:" + c, 0) + 1
+            ref["pop_steps"] = pop_steps(ref)
+            obs = explore(g, rs, sc, ref, plans_for(T, xrng, ctx.tier), st, family="extreme:" + kind)
+            shards.append(("e%03d" % xn, shard_new(ref, obs)))
+            if any(ref["markov"][:-1]):
+                resumed_families(ctx, xrng, g, rs, sc, ref, st, shards, "e%03d" % xn, n_markov=1, n_pop=ctx.scale(0, 1), chain=0, maxT=maxT)
+            break
+    # every run explores sessions resumed INSIDE a Markov level: if the rulesets above happened to offer fewer than two (the
+    # level was always the last pre-terminal, or had a single guess), draw further rulesets for that family alone
+    frng, ft = fork(xrng), 0
+    while dist.get("resumed_in_markov_level", 0) < 2 and ft < 200:
+        ft += 1
+        rs = small_ruleset(frng)
         try:
             g = impl_next.load_grammar(rs, sc)
         except Exception:
-            dist["extreme_not_loadable"] = dist.get("extreme_not_loadable", 0) + 1
             continue
         items, _, capped, _ = impl_next.full_stream(g, cap=30, check_heap=False)
         if capped or len(items) < 2:
             continue
         ref = reference(g, sc)
-        T = ref["steps"]
-        classes = [prob_class(po["prob"]) for po in ref["pops"]]
-        want = {"sub-base": "subnormal", "sub-term": "subnormal", "sub-omen": "subnormal", "sub-all": "subnormal", "tiny": "tiny",
-                "zero": "zero", "one": "one"}.get(kind)
-        if T > ctx.scale(30, 50) or T < 4 or not ref["split_ok"]:
+        if ref["steps"] > maxT or not cuts_of(ref)[0]:
             continue
-        if (want and want not in classes) or (kind == "under-later" and not ("subnormal" in classes and classes[0] in ("tiny", "ordinary"))):
-            continue
-        xn += 1
-        dist["extreme_rulesets"] = dist.get("extreme_rulesets", 0) + 1
-        dist["extreme:" + kind] = dist.get("extreme:" + kind, 0) + 1
-        for c in classes:
-            dist["pre-terminals:" + c] = dist.get("pre-terminals:" + c, 0) + 1
-        ref["pop_steps"] = pop_steps(ref)
-        obs = explore(g, rs, sc, ref, plans_for(T, xrng, ctx.tier), st, family="extreme:" + kind)
-        shards.append(("e%03d" % xn, shard_new(ref, obs)))
-        if any(ref["markov"][:-1]):
-            resumed_families(ctx, xrng, g, rs, sc, ref, st, shards, "e%03d" % xn, n_markov=1, n_pop=ctx.scale(0, 1), chain=0, maxT=maxT)
+        resumed_families(ctx, frng, g, rs, sc, ref, st, shards, "f%03d" % ft, n_markov=2, n_pop=0, chain=0, maxT=maxT)
     nontrivial = st["nontrivial"]
     for name, idx, log in common.run_case_shards("C12", shards):
         if idx is None:
@@ -663,7 +688,7 @@ def run(ctx):
             "only the later pre-terminals) and (ii) on RESUMED sessions: an earlier run of the session was quit inside a Markov level "
             "(or at a pop, or was itself a resumed run quit inside the restored level), its save file and .omn are loaded, events at "
             "every step of the remainder of the restored level (quick: up to 6), at the first pop and after it (quick: 3 steps, "
-            "thorough: all); oracle everywhere: prefix of the undisturbed run, a quit typed to a listening thread sets the flag and "
+            "thorough: 6 steps and random pairs); oracle everywhere: prefix of the undisturbed run, a quit typed to a listening thread sets the flag and "
             "stops the run at the next Markov guess / pre-terminal boundary with the session saved, the thread survives every status "
             "/ help request; plus the CLI under tty / open pipe / pipe at EOF / /dev/null / "
             "closed stdin; non-trivial = the event lands strictly inside the run; distinct by (ruleset, earlier runs, schedule)"
